@@ -92,6 +92,9 @@ func (i *impl) startCall(h *lp.H, c, k int, wait bool) string {
 	i.b.WaitFor(func() bool {
 		for ; i.logPos < len(i.b.Log); i.logPos++ {
 			if m, ok := i.b.Log[i.logPos].Msg.(*message.UpstreamCall); ok {
+				if i.ids[m.CallID] && m.Name != "n"+strconv.Itoa(k) {
+					continue // a pending call sent again after a reconnect (same call id, same content): not a new call
+				}
 				seen = m
 				i.logPos++
 				return true
